@@ -389,17 +389,17 @@ for _p, _t in {
 _R9 = {
  'C01': 'Pool-made failures are records of a live exception of the right type; a job past its hard limit is failed whether or not its worker is still listed; every executed job sends one READY or the worker dies.',
  'C02': 'MapResult counts each part once before the zero test and becomes ready on success only when none is left; a result reaches its handle whatever the per-worker tables hold.',
- 'C03': 'A refused (NACKed) job gets no owner pid / acceptance time on any path of _ack.',
+ 'C03': 'A refused (NACKed) job gets no owner pid / acceptance time on any path of _ack; after a NACK the worker goes back to waiting; every handle gets send_ack exactly for handshake pools.',
  'C04': 'worker_pids() of every handle class answers with the owners _ack recorded; the lost-worker failure is a live WorkerLostError.',
- 'C05': 'A pending job past its hard limit is always failed (only the kill depends on finding the process); no pass of the scanner skips the walk over the cache.',
+ 'C05': 'A pending job past its hard limit is always failed (only the kill depends on finding the process); no pass of the scanner skips the walk over the cache; a job with a limit of its own is submitted only after the lazily started scanner was started.',
  'C06': 'No scanner pass skips the walk over the cache; a refused job has no owner whose next job the soft limit could hit.',
  'C07': 'A worker that reads the sentinel / a dead pipe / a set restart event leaves (SystemExit on every path); a new worker is listed before it is started; only restart() sets a worker\'s shutdown event.',
  'C08': 'terminate()/close() of a pool thread publish TERMINATE/CLOSE; with the exit-requested flag set the worker never reaches the next job; _should_override_term_signal decided as a truth table; no termination signal is ever set to SIG_IGN in worker code; worker listed before started.',
- 'C09': 'Every supervisor iteration that finds thread and pool running calls _maintain_pool(); RawValue zero-fills (per-worker counters); Popen.terminate sends the remappable TERM_SIGNAL.',
+ 'C09': 'Every supervisor iteration that finds thread and pool running calls _maintain_pool(); RawValue zero-fills (per-worker counters); Popen.terminate sends the remappable TERM_SIGNAL; shrink(n) leaves its loop exactly after n workers.',
  'C11': 'A refused restart closes the pool and is re-raised out of the supervisor; the window expires by the clock alone (its reset is not behind the budget test).',
  'C13': 'Header encode/decode are compared in one normal form (struct formats; int.to_bytes/from_bytes read as the equivalent format incl. signedness).',
- 'C14': 'The block recorded for a new arena has exactly the size the arena was built with.',
- 'C16': 'Nothing can refuse an item between taking a place in the capacity semaphore and appending it; the base SimpleQueue touches the pipe only inside the hooks the locked subclass overrides.',
+ 'C14': 'The block recorded for a new arena has exactly the size the arena was built with; a block merged away leaves all three free indexes.',
+ 'C16': 'Nothing can refuse an item between taking a place in the capacity semaphore and appending it; the base SimpleQueue touches the pipe only inside the hooks the locked subclass overrides; put() wakes / starts the feeder after the append and the feeder sends every item it takes.',
  'C19': 'connection.wait polls once for a non-positive timeout; no deadline in the waiting code is taken from time.time().',
  'C20': 'A forked child clears inherited finalizers before the after-fork hooks run; register() un-shares the registry by a test on the class\'s own namespace.',
 }
